@@ -272,6 +272,12 @@ func VerifyAddressKey(ip netip.Addr, digestAlg crop.Hash, keyType crop.KeyPairTy
 		return errors.New("key type not specified")
 	case len(pubKeyData) == 0:
 		return errors.New("key not specified")
+	case !digestAlg.IsValid():
+		return errors.New("hash algorithm not supported")
+	case len(keyType) > 0xFF:
+		return errors.New("key type too long")
+	case len(pubKeyData) > 0xFFFF:
+		return errors.New("key too long")
 	}
 
 	// Make comparison.
